@@ -189,7 +189,7 @@ func VerifyPowershell(r io.ReadSeeker, style PsSigStyle, skipDigests bool) (*Pow
 			if isUtf16 {
 				lstr = fromUtf16(line)
 			}
-			if !strings.HasPrefix(lstr, si.start) || !strings.HasSuffix(lstr, si.end+"\r\n") {
+			if len(lstr) < len(si.start)+len(si.end)+2 || !strings.HasPrefix(lstr, si.start) || !strings.HasSuffix(lstr, si.end+"\r\n") {
 				return nil, errors.New("malformed powershell signature")
 			}
 			i := len(si.start)
